@@ -290,6 +290,45 @@ fn reset_event(w: &World, purge_limit: usize) -> Value {
         "protect": protect, "maxBR": max_br, "addrLimit": purge_limit})
 }
 
+fn accept_ev(w: &mut World, rng: &mut Rng, a: u64, raw_in: bool, sid: SessionId) {
+    let raw = if raw_in { RawSessionType::Inbound } else { RawSessionType::Outbound };
+    let res = w.reg.verif_accept_peer(w.u.addrs[a as usize - 1].clone(), sid, raw, &mut w.store);
+    let (ret, ev) = match &res {
+        Ok(None) => ("ok".to_string(), 0),
+        Ok(Some(p)) => ("ok".to_string(), p.session_id.value()),
+        Err(e) => {
+            let s = format!("{:?}", e);
+            let name = ["SessionExists", "PeerIdExists", "NonReserved", "Banned", "ReachMaxInboundLimit", "ReachMaxOutboundLimit"]
+                .iter()
+                .find(|k| s.contains(*k))
+                .map(|k| k.to_string())
+                .unwrap_or(s);
+            (name, 0)
+        }
+    };
+    if let Ok(evicted) = &res {
+        w.conn_seq.insert(sid, w.seq);
+        w.seq += 1;
+        if let Some(p) = evicted {
+            w.conn_seq.remove(&p.session_id);
+            w.ages.remove(&p.session_id);
+        }
+    }
+    w.emit(json!({"ev": "Accept", "a": a, "s": sid.value(), "raw": if raw_in {"in"} else {"out"}, "ret": ret, "evicted": ev}));
+    if let Ok(Some(p)) = res {
+        // the transport closes the evicted session; mostly at once, sometimes later (or never in this history)
+        if rng.chance(3, 4) {
+            let ea = w.aid(&p.connected_addr);
+            // only when no live session of that peer id exists (the close handler's condition is on the session)
+            let pid = extract_peer_id(&p.connected_addr).unwrap();
+            if w.reg.get_key_by_peer_id(&pid).is_none() {
+                w.store.remove_disconnected_peer(&p.connected_addr);
+                w.emit(json!({"ev": "Closed", "a": ea}));
+            }
+        }
+    }
+}
+
 fn history(seed: u64, h: u64, steps: u64) {
     let mut rng = Rng::new(seed.wrapping_mul(1000003).wrapping_add(h));
     let u = make_universe(&mut rng, h);
@@ -301,7 +340,35 @@ fn history(seed: u64, h: u64, steps: u64) {
     // every fourth history reuses values (ties: the specification then allows any of the tied)
     let ties = h % 4 == 3;
     let mut ping_pool: Vec<u64> = (1..=40).collect();
-    let mut age_pool: Vec<u64> = (0..=12).collect();
+    let mut age_pool: Vec<u64> = (0..=24).collect();
+    // profiles with a large inbound side start full, every session measured: the protection rounds of the eviction
+    // rule (8 lowest pings, 8 most recent senders, the older half) then really drop candidates
+    if h % 4 == 1 || h % 4 == 2 {
+        let mut a = 1;
+        while a <= n && (w.reg.peers().values().filter(|p| p.is_inbound() && !p.is_whitelist).count() as u32) < w.u.max_in {
+            w.next_sid += 1;
+            let sid = SessionId::new(w.next_sid);
+            accept_ev(&mut w, &mut rng, a, true, sid);
+            if w.reg.get_peer(sid).is_some() {
+                if !rng.chance(1, 10) {
+                    let p = if ties { 1 + rng.below(3) } else { ping_pool.swap_remove(rng.below(ping_pool.len() as u64) as usize) };
+                    w.reg.get_peer_mut(sid).unwrap().ping_rtt = Some(Duration::from_secs(p));
+                    w.emit(json!({"ev": "SetPing", "s": sid.value(), "p": p}));
+                }
+                if !rng.chance(1, 10) && (ties || !age_pool.is_empty()) {
+                    let g = if ties { rng.below(3) } else { age_pool.swap_remove(rng.below(age_pool.len() as u64) as usize) };
+                    let t = w.t0.checked_sub(Duration::from_secs(2 * g)).unwrap_or_else(|| {
+                        eprintln!("TOOL-ERROR monotonic clock too young");
+                        std::process::exit(2)
+                    });
+                    w.reg.get_peer_mut(sid).unwrap().last_ping_protocol_message_received_at = Some(t);
+                    w.ages.insert(sid, g);
+                    w.emit(json!({"ev": "SetAge", "s": sid.value(), "g": g}));
+                }
+            }
+            a += 1;
+        }
+    }
     for _ in 0..steps {
         let r = rng.below(100);
         let sids: Vec<SessionId> = {
@@ -317,42 +384,7 @@ fn history(seed: u64, h: u64, steps: u64) {
                 w.next_sid += 1;
                 SessionId::new(w.next_sid)
             };
-            let raw = if raw_in { RawSessionType::Inbound } else { RawSessionType::Outbound };
-            let res = w.reg.verif_accept_peer(w.u.addrs[a as usize - 1].clone(), sid, raw, &mut w.store);
-            let (ret, ev) = match &res {
-                Ok(None) => ("ok".to_string(), 0),
-                Ok(Some(p)) => ("ok".to_string(), p.session_id.value()),
-                Err(e) => {
-                    let s = format!("{:?}", e);
-                    let name = ["SessionExists", "PeerIdExists", "NonReserved", "Banned", "ReachMaxInboundLimit", "ReachMaxOutboundLimit"]
-                        .iter()
-                        .find(|k| s.contains(*k))
-                        .map(|k| k.to_string())
-                        .unwrap_or(s);
-                    (name, 0)
-                }
-            };
-            if let Ok(evicted) = &res {
-                w.conn_seq.insert(sid, w.seq);
-                w.seq += 1;
-                if let Some(p) = evicted {
-                    w.conn_seq.remove(&p.session_id);
-                    w.ages.remove(&p.session_id);
-                }
-            }
-            w.emit(json!({"ev": "Accept", "a": a, "s": sid.value(), "raw": if raw_in {"in"} else {"out"}, "ret": ret, "evicted": ev}));
-            if let Ok(Some(p)) = res {
-                // the transport closes the evicted session; mostly at once, sometimes later (or never in this history)
-                if rng.chance(3, 4) {
-                    let ea = w.aid(&p.connected_addr);
-                    // only when no live session of that peer id exists (the close handler's condition is on the session)
-                    let pid = extract_peer_id(&p.connected_addr).unwrap();
-                    if w.reg.get_key_by_peer_id(&pid).is_none() {
-                        w.store.remove_disconnected_peer(&p.connected_addr);
-                        w.emit(json!({"ev": "Closed", "a": ea}));
-                    }
-                }
-            }
+            accept_ev(&mut w, &mut rng, a, raw_in, sid);
         } else if r < 44 && !sids.is_empty() {
             let s = sids[rng.below(sids.len() as u64) as usize];
             let p = w.reg.verif_remove_peer(s).unwrap();
